@@ -120,6 +120,13 @@ func JsonContainerReader(container map[string]interface{}) node.Node {
 		// i.e. non-discriminating and we should error out.
 		for _, kase := range choice.Cases() {
 			for _, prop := range kase.DataDefinitions() {
+				if nested, isChoice := prop.(*meta.Choice); isChoice {
+					// data of a choice inside this case selects this case too
+					if chosen, _ := s.OnChoose(state, nested); chosen != nil {
+						return kase, nil
+					}
+					continue
+				}
 				if _, found := fqkGet(prop, container); found {
 					return kase, nil
 				}
